@@ -87,8 +87,8 @@ def same(a, b):
         site = b.split()[1]
         want = {"50": "too many fileids", "51": "filename too long", "52": "index out of bounds"}.get(site, "?")
         return want in a
-    if b.startswith("wpanic ") and a.startswith("panic "):
-        site = b.split()[1]
+    if " wpanic " in (" " + b) and a.startswith("panic "):
+        site = b.split("wpanic ")[1].split()[0]
         want = {"50": "too many fileids", "51": "filename too long"}.get(site, "?")
         return want in a
     return False
